@@ -2,6 +2,7 @@ package main
 
 import (
 	"context"
+	"errors"
 	"encoding/json"
 	"fmt"
 	"math/rand"
@@ -205,6 +206,7 @@ func c17SymCase(ops []symOp, model *Model, r *Result) {
 type c17Compiled struct {
 	ParseErr   string
 	CompileErr string
+	CompileErrClass string // sentinel class of the compile error, named as Compile.v's enc_cerr does
 	Code       []byte
 	NConsts    int
 	GCount     int
@@ -229,6 +231,22 @@ func c17Compile(src string) (out c17Compiled) {
 	c := bytecode.NewCompiler()
 	if err := c.Compile(prog); err != nil {
 		out.CompileErr = err.Error()
+		switch {
+		case errors.Is(err, bytecode.ErrUndefinedVar):
+			out.CompileErrClass = "undefined-var"
+		case errors.Is(err, bytecode.ErrUnknownOperator):
+			out.CompileErrClass = "unknown-operator"
+		case errors.Is(err, bytecode.ErrUnsupportedExpression):
+			out.CompileErrClass = "unsupported-expression"
+		case errors.Is(err, bytecode.ErrUnsupportedNode):
+			out.CompileErrClass = "unsupported-node"
+		case errors.Is(err, bytecode.ErrOperandRange):
+			out.CompileErrClass = "operand-range"
+		case errors.Is(err, bytecode.ErrInternal):
+			out.CompileErrClass = "range-type"
+		default:
+			out.CompileErrClass = "other"
+		}
 		return
 	}
 	bc := c.Bytecode()
